@@ -53,14 +53,14 @@ type Clause struct {
 }
 
 type Block struct {
-	Kind    string // func, interface, extern, functype
-	Name    string
-	Clauses []*Clause
-	Line    int
-	Inline  bool
-	Props   []string
-	used    bool
-	expanded bool
+	Kind      string // func, interface, extern, functype
+	Name      string
+	Clauses   []*Clause
+	Line      int
+	Inline    bool
+	Props     []string
+	used      bool
+	expanded  bool
 	Trusted   bool // contract used at call sites but the body is NOT verified (reported as an assumption)
 	Parsetime bool // builds/mutates the syntax tree: may write any non-read-only location; callers havoc its write set wholesale
 }
@@ -81,11 +81,11 @@ type Lemma struct {
 }
 
 type ReadSet struct {
-	Name    string
-	Field   string
-	Allowed []string
-	Props   []string
-	Line    int
+	Name       string
+	Field      string
+	Allowed    []string
+	Props      []string
+	Line       int
 	WritesOnly bool // writeset: only stores (and escaping addresses) count
 }
 
@@ -147,7 +147,7 @@ func loadContracts(path string) (*Contracts, error) {
 		word, rest := splitWord(l.text)
 		fail := func(err error) error { return fmt.Errorf("%s:%d: %v", path, l.no, err) }
 		switch word {
-		case "func", "interface", "extern", "functype", "closure", "template":
+		case "func", "interface", "extern", "functype", "closure", "template", "cases":
 			kind := word
 			if kind == "closure" {
 				kind = "func"
@@ -283,6 +283,27 @@ func loadContracts(path string) (*Contracts, error) {
 					cl.E = e
 					cl.Text = r3
 				}
+			case "case":
+				// case <constant> assume <expr> | case <constant> ensures [label:] <expr>   (blocks of kind `cases`)
+				cname, r2 := splitWord(rest)
+				what, r3 := splitWord(r2)
+				if what != "assume" && what != "ensures" {
+					return nil, fail(fmt.Errorf("case clause: expected assume|ensures, got %q", what))
+				}
+				cl.Kind = "case-" + what
+				cl.Names = []string{cname}
+				if what == "ensures" {
+					if k := labelEnd(r3); k > 0 {
+						cl.Label = strings.TrimSpace(r3[:k])
+						r3 = r3[k+1:]
+					}
+				}
+				e, err := parseExpr(r3)
+				if err != nil {
+					return nil, fail(err)
+				}
+				cl.E = e
+				cl.Text = r3
 			case "after", "before":
 				// after|before <callee>#<k> assert <expr>
 				site, r2 := splitWord(rest)
